@@ -4,25 +4,34 @@
  *   readMinMaxLowHighFromLines and readMemlowAt / readMemhighAt / readMemmaxAt / readMemminAt / readSwapMaxAt: a limit
  *       file must be EXACTLY one line - anything else is an error result and line 0 is never indexed; the line
  *       "max" is INT64_MAX, any other line is its number; the file opened is the one the accessor is named after;
+ *   readMemhightmpFromLines / readMemhightmpAt: exactly one line of exactly two space-separated tokens, else an error result
+ *       and no token is indexed; token 0 "max" is INT64_MAX, otherwise token 0's number (not the whole line's);
  *   readMemoryOomGroupAt: true exactly when the file is the single line "1"; never indexes;
  *   readKillPreferenceAt: PREFER if either prefer attribute is present (checked before any avoid attribute),
  *       AVOID if only an avoid attribute is, NORMAL otherwise; an xattr probe error is an error result. */
 #include "common.h"
 _Bool nondet_bool(void); int64_t nondet_i64(void); maybe_vec_str_t nondet_lines(void); maybe__Bool nondet_maybe_bool(void); str_t nondet_str(void);
+#define TOKENS_VID 555     /* identity of the vector Util::split returns; file contents are some other vector */
 maybe_vec_str_t g_lines; int64_t g_first_num; str_t g_opened;
 _Bool g_single_one;      /* the file consists of exactly the one line "1" */
 maybe_Fs_Fd Fs_Fd__openat(Fs_DirFd d, str_t name) { g_opened = name; maybe_Fs_Fd r; r.ok = nondet_bool(); r.err = 0; return r; }
 maybe_vec_str_t Fs__readFileByLine__maybe_Fs_Fd(maybe_Fs_Fd fd)
 {
   maybe_vec_str_t r = nondet_lines();
-  __CPROVER_assume(!r.ok || r.val.n <= VEC_MAX);
+  __CPROVER_assume(!r.ok || (r.val.n <= VEC_MAX && r.val.vid != TOKENS_VID));
   if (!fd.ok) r.ok = 0;
   g_lines = r;
   return r;
 }
 str_t g_first_line;     /* the text of line 0 (compared with "max" by the limit readers) */
-str_t vec_str_t__elem(uint64_t vid, uint64_t i) { return i == 0 ? g_first_line : (str_t)(77000 + i); }
-int64_t ext__stoll(str_t s) { return g_first_num; }      /* the number printed on that line (kernel prints decimal integers: ASSUMED) */
+str_t g_tok0; uint64_t g_ntok; int64_t g_tok_num;   /* memory.high.tmp: first token of the line, number of space-separated tokens, the number printed as token 0 */
+str_t vec_str_t__elem(uint64_t vid, uint64_t i) { if (vid == TOKENS_VID) return i == 0 ? g_tok0 : (str_t)(88000 + i); return i == 0 ? g_first_line : (str_t)(77000 + i); }
+vec_str_t Util__split(str_t s, char c)
+{
+  __CPROVER_assert(s == g_first_line && c == ' ', "the only line is split at spaces");
+  vec_str_t v; v.vid = TOKENS_VID; v.n = g_ntok; return v;
+}
+int64_t ext__stoll(str_t s) { return s == g_tok0 ? g_tok_num : g_first_num; }      /* the number printed on that line (kernel prints decimal integers: ASSUMED) */
 vec_str_t vec_str_t__from_list1(str_t a) { vec_str_t v; v.n = 1; v.vid = 424242; return v; }
 _Bool vec_str_t__op_eq(vec_str_t a, vec_str_t b) { __CPROVER_assert(b.vid == 424242, "compared with the literal list {\"1\"}"); return g_single_one && a.n == 1; }
 #define READER_CONTRACT(file) \
@@ -46,13 +55,13 @@ maybe__Bool Fs__readMemoryOomGroupAt(Fs_DirFd dirfd)
 /* limit files: memory.low / high / max / min / swap.max */
 #define LIMIT_VALUE (g_first_line == STR_max ? INT64_MAX : g_first_num)
 maybe_int64_t Fs__readMinMaxLowHighFromLines(vec_str_t lines)
-  __CPROVER_requires(ghost_exc == 0 && lines.n <= VEC_MAX)
+  __CPROVER_requires(ghost_exc == 0 && lines.n <= VEC_MAX && lines.vid != TOKENS_VID && g_tok0 != g_first_line)
   __CPROVER_assigns()
   /* exactly one line or an error; "max" is the largest value, anything else the printed number */ /*@C10,C15,C18*/
   __CPROVER_ensures(lines.n != 1 ? !__CPROVER_return_value.ok : (__CPROVER_return_value.ok && __CPROVER_return_value.val == LIMIT_VALUE))
   __CPROVER_ensures(ghost_exc == 0);
 #define LIMIT_READER_CONTRACT(file) \
-  __CPROVER_requires(ghost_exc == 0) \
+  __CPROVER_requires(ghost_exc == 0 && g_tok0 != g_first_line) \
   __CPROVER_assigns(g_lines, g_opened) \
   __CPROVER_ensures(g_opened == (file)) \
   /* unreadable, empty or multi-line -> error result; otherwise the limit on the only line */ /*@C10,C15,C18*/ \
@@ -63,6 +72,22 @@ maybe_int64_t Fs__readMemhighAt(Fs_DirFd dirfd) LIMIT_READER_CONTRACT(STR_memory
 maybe_int64_t Fs__readMemmaxAt(Fs_DirFd dirfd) LIMIT_READER_CONTRACT(STR_memory_max);
 maybe_int64_t Fs__readMemminAt(Fs_DirFd dirfd) LIMIT_READER_CONTRACT(STR_memory_min);
 maybe_int64_t Fs__readSwapMaxAt(Fs_DirFd dirfd) LIMIT_READER_CONTRACT(STR_memory_swap_max);
+
+/* memory.high.tmp: "<limit> <timeout>" */
+#define TMP_VALUE (g_tok0 == STR_max ? INT64_MAX : g_tok_num)
+maybe_int64_t Fs__readMemhightmpFromLines(vec_str_t lines)
+  __CPROVER_requires(ghost_exc == 0 && lines.n <= VEC_MAX && lines.vid != TOKENS_VID && g_ntok <= VEC_MAX && g_tok0 != g_first_line)
+  __CPROVER_assigns()
+  /*@C10,C15,C18*/
+  __CPROVER_ensures((lines.n != 1 || g_ntok != 2) ? !__CPROVER_return_value.ok : (__CPROVER_return_value.ok && __CPROVER_return_value.val == TMP_VALUE))
+  __CPROVER_ensures(ghost_exc == 0);
+maybe_int64_t Fs__readMemhightmpAt(Fs_DirFd dirfd)
+  __CPROVER_requires(ghost_exc == 0 && g_ntok <= VEC_MAX && g_tok0 != g_first_line)
+  __CPROVER_assigns(g_lines, g_opened)
+  __CPROVER_ensures(g_opened == STR_memory_high_tmp)
+  /*@C10,C15,C18*/
+  __CPROVER_ensures((!g_lines.ok || g_lines.val.n != 1 || g_ntok != 2) ? !__CPROVER_return_value.ok : (__CPROVER_return_value.ok && __CPROVER_return_value.val == TMP_VALUE))
+  __CPROVER_ensures(ghost_exc == 0);
 
 /* xattr probes */
 maybe__Bool g_tp, g_up, g_ta, g_ua;   /* trusted.oomd_prefer, user.oomd_prefer, trusted.oomd_avoid, user.oomd_avoid */
@@ -88,7 +113,7 @@ maybe_KillPreference Fs__readKillPreferenceAt(Fs_DirFd path)
   __CPROVER_ensures((__CPROVER_return_value.ok && (HAS(g_tp) || (g_tp.ok && HAS(g_up)))) ? __CPROVER_return_value.val == KillPreference__PREFER : 1)
   __CPROVER_ensures(ghost_exc == 0);
 #define CANARY __CPROVER_assert(0, "canary: contract precondition satisfiable and function exit reachable")
-#define HAVOC_FR() do { HAVOC(g_lines); HAVOC(g_first_num); HAVOC(g_first_line); HAVOC(g_single_one); HAVOC(g_tp); HAVOC(g_up); HAVOC(g_ta); HAVOC(g_ua); HAVOC(ghost_exc); } while (0)
+#define HAVOC_FR() do { HAVOC(g_lines);  HAVOC(g_first_num); HAVOC(g_first_line); HAVOC(g_tok0); HAVOC(g_ntok); HAVOC(g_tok_num); HAVOC(g_single_one); HAVOC(g_tp); HAVOC(g_up); HAVOC(g_ta); HAVOC(g_ua); HAVOC(ghost_exc); __CPROVER_assume(g_tok0 != g_first_line); } while (0)
 void h_readMemcurrentAt(void) { Fs_DirFd d; HAVOC_FR(); Fs__readMemcurrentAt(d); CANARY; }
 void h_readSwapCurrentAt(void) { Fs_DirFd d; HAVOC_FR(); Fs__readSwapCurrentAt(d); CANARY; }
 void h_readPidsCurrentAt(void) { Fs_DirFd d; HAVOC_FR(); Fs__readPidsCurrentAt(d); CANARY; }
@@ -100,3 +125,5 @@ void h_readMemhighAt(void) { Fs_DirFd d; HAVOC_FR(); Fs__readMemhighAt(d); CANAR
 void h_readMemmaxAt(void) { Fs_DirFd d; HAVOC_FR(); Fs__readMemmaxAt(d); CANARY; }
 void h_readMemminAt(void) { Fs_DirFd d; HAVOC_FR(); Fs__readMemminAt(d); CANARY; }
 void h_readSwapMaxAt(void) { Fs_DirFd d; HAVOC_FR(); Fs__readSwapMaxAt(d); CANARY; }
+void h_readMemhightmpFromLines(void) { vec_str_t l; HAVOC_FR(); Fs__readMemhightmpFromLines(l); CANARY; }
+void h_readMemhightmpAt(void) { Fs_DirFd d; HAVOC_FR(); Fs__readMemhightmpAt(d); CANARY; }
